@@ -81,6 +81,15 @@ CLAIMED["C18"] = (
     "Decides the static lock and ownership discipline that the schedule property needs: every access to closed is under the mutex in a sufficient mode; every send on incoming happens under the read lock after testing closed in that same locked region; the channel is closed once, under the write lock, after the flag is set; Close starts the drain before taking the write lock; lock state is balanced at every return; a received connection is returned or closed exactly once, an ingressed one is sent or closed, drained ones are closed; closure is reported as net.ErrClosed. Deadlock freedom and exactly-once delivery over all schedules, and data-race freedom beyond this discipline, are NOT decided.",
     _T, "DESIGN.md 5/C18")
 
+CLAIMED["C07"] = (
+    "value-provenance of the per-connection nonce, trust pool and returned connection + SSA guard-cut (nonce fill checks, handshake success, fetch success) + loop-escape check + sentinel-propagation check + the four chain filters",
+    "Decides the safety half: the client's verification name is the base64 of a fresh checked 32-byte nonce that is also the request nonce, on every client configuration; the trust pool is a fresh pool holding only CA certificates of the node's own stored bundles; Dial returns only a handshaken tls.Client over one of those configurations, tries every configuration, and never lets the unverified fetch connection/configuration escape; ErrNotAuthorized reaches the caller as the sentinel; certificates are stored only after a successful fetch. That a registered node always connects (liveness) and crypto/tls internals are not decided.",
+    _T, "DESIGN.md 5/C07")
+CLAIMED["C19"] = (
+    "type-switch table extraction and cross-back-end agreement + guard-cut of validation before value operations + lock-state dataflow over the in-memory back end's radix-tree calls + key origin-set (data-dependence) check + store-once failure-edge cut",
+    "Decides the structural map conditions: both back ends map exactly the four admitted message types to equal, distinct, prefix-free sub-paths and list the same types; Store/Load/Remove validate first and use the message's own ID; every radix-tree read/write runs under the embedded mutex in a sufficient mode; absence is the ErrNotFound sentinel; the store/load/remove entry key depends on exactly (sub-path, id) and back-end constants; the store-once back end writes a node record only after a failed load of that ID. Map equivalence over operation sequences, file-system semantics and file back-end concurrency are not decided.",
+    _T, "DESIGN.md 5/C19")
+
 _PENDING = "check not built yet in this round (design in DESIGN.md section 5); will be claimed once its rules are exact on the repaired tree"
 for _p in ["C01","C02","C03","C04","C06","C07","C08","C09","C10","C11","C12","C13","C14","C15","C16","C17","C18","C19","C20"]:
     if _p not in CLAIMED:
